@@ -90,12 +90,16 @@ func cmdCheck(args []string) int {
 	tier := fs.String("tier", "quick", "quick|thorough")
 	repo := fs.String("repo", envOr("VERIF_REPO", "/repo"), "repository")
 	verif := fs.String("verif", envOr("VERIF_DIR", "/verif"), "verif dir")
+	outdir := fs.String("outdir", envOr("VERIF_OUT", ""), "directory for evidence/replays/work (default: verif dir)")
 	only := fs.String("only", "", "verify only this function (debug)")
 	keep := fs.Bool("keep", false, "keep SMT files")
 	updateExpected := fs.Bool("update-expected", false, "rewrite expected obligation list")
 	debug := fs.Bool("debug", false, "verbose")
 	fs.Parse(args)
 	start := time.Now()
+	if *outdir == "" {
+		*outdir = *verif
+	}
 	seed := 0
 	if s := os.Getenv("VERIF_SEED"); s != "" {
 		seed, _ = strconv.Atoi(s)
@@ -107,7 +111,7 @@ func cmdCheck(args []string) int {
 	prog, err := loadProgram(*repo)
 	if err != nil {
 		fmt.Fprintf(os.Stderr, "govc: cannot load %s: %v\n", *repo, err)
-		return failNoLoad(*verif, *prop, *tier, seed, start, err)
+		return failNoLoad(*outdir, *prop, *tier, seed, start, err)
 	}
 	cs := parseContracts(prog.contractLines())
 	for _, e := range cs.Errors {
@@ -190,7 +194,7 @@ func cmdCheck(args []string) int {
 		}
 	}
 	// ---- discharge
-	workDir := filepath.Join(*verif, "work", *prop)
+	workDir := filepath.Join(*outdir, "work", *prop)
 	os.RemoveAll(workDir)
 	os.MkdirAll(workDir, 0o755)
 	solveAll(allQ, ctx.Reg, workDir, timeout, seed, *tier == "thorough")
@@ -288,7 +292,7 @@ func cmdCheck(args []string) int {
 	// ---- report
 	nOb, nDis := 0, 0
 	var violations []string
-	replayDir := filepath.Join(*verif, "replays", *prop)
+	replayDir := filepath.Join(*outdir, "replays", *prop)
 	os.RemoveAll(replayDir)
 	var samples []interface{}
 	solverCount := map[string]int{}
@@ -395,9 +399,9 @@ func cmdCheck(args []string) int {
 		"wall_s":      time.Since(start).Seconds(),
 		"violations":  len(violations),
 	}
-	os.MkdirAll(filepath.Join(*verif, "evidence"), 0o755)
+	os.MkdirAll(filepath.Join(*outdir, "evidence"), 0o755)
 	b, _ := json.MarshalIndent(ev, "", " ")
-	os.WriteFile(filepath.Join(*verif, "evidence", *prop+".json"), b, 0o644)
+	os.WriteFile(filepath.Join(*outdir, "evidence", *prop+".json"), b, 0o644)
 	if !*keep && len(violations) == 0 {
 		os.RemoveAll(workDir)
 	}
